@@ -426,7 +426,16 @@ func c18Stack(c *vlib.Ctx) {
 			h := sbHint{fresh: r.Bool(), pre: r.Intn(64), app: r.Intn(64)}
 			w := h.make()
 			// dirty the buffer: SerializeLayers must clear it first
-			if r.Bool() {
+			if r.Chance(1, 4) {
+				// recorded layers but no bytes: what an earlier stack that serialized to nothing leaves behind
+				if r.Bool() {
+					gopacket.SerializeLayers(w, gopacket.SerializeOptions{}, gopacket.Payload(nil), gopacket.Payload(nil))
+				} else {
+					for k := r.Range(1, 3); k > 0; k-- {
+						w.PushLayer(gopacket.LayerType(990 + k))
+					}
+				}
+			} else if r.Bool() {
 				p, _ := w.PrependBytes(r.Range(1, 50))
 				for i := range p {
 					p[i] = 0xEE
